@@ -3,6 +3,7 @@
 // signalling pattern so unwritten cells are visible; exact (bitwise) comparison for the integer
 // class and for all copy/extract kernels, gamma_k |X||Y| for real-valued products.
 #include "../drv/vp.h"
+#include <memory>
 #include <cmath>
 #include <vector>
 extern "C" {
@@ -12,9 +13,9 @@ extern "C" {
 #define VP_MAXDIM 9
 #endif
 
-enum { L_MUL, L_T, L_EYE, L_TRI, L_DIAG, L_TRIL, L_TRIU, L_TALL, L_WIDE, L_SQUARE, L_INNER1, L_3DIFF, L_REALS, L_SIGNED_ZERO, L_TALL2, L_LARGE_DIM, L_WIDE_EXP, L_ALIASED, L_ARENA };
+enum { L_MUL, L_T, L_EYE, L_TRI, L_DIAG, L_TRIL, L_TRIU, L_TALL, L_WIDE, L_SQUARE, L_INNER1, L_3DIFF, L_REALS, L_SIGNED_ZERO, L_TALL2, L_LARGE_DIM, L_WIDE_EXP, L_ALIASED, L_ARENA, L_READONLY };
 static char const *const labels[] = {"product", "transpose", "eye", "tri_ones", "diag", "triL", "triU", "rows_gt_cols", "cols_gt_rows", "square",
-                                     "inner_dimension_1", "three_pairwise_different_dims", "real_valued_contents", "signed_zero_in_contents", "rows_ge_cols_plus_2", "dimension_ge_15_up_to_140", "wide_exponent_contents", "product_operands_share_storage", "operands_and_result_adjacent_in_one_block", nullptr};
+                                     "inner_dimension_1", "three_pairwise_different_dims", "real_valued_contents", "signed_zero_in_contents", "rows_ge_cols_plus_2", "dimension_ge_15_up_to_140", "wide_exponent_contents", "product_operands_share_storage", "operands_and_result_adjacent_in_one_block", "operands_in_read_only_memory", nullptr};
 static char const *const metrics[] = {"max_product_error_over_bound", nullptr};
 static uint8_t const dict[] = {0, 1, 2, 3, 8, 9};
 static vp_info const info = {"C09", "linalg", "", labels, metrics, 256, dict, sizeof(dict)};
@@ -192,6 +193,14 @@ static void run_case(Tape &t, Ctx &cx)
                 cx.hash.add(100 + (place / 4) % 6);
             }
             struct FreeArena { R *p; ~FreeArena() { free(p); } } fa{arena};
+            // or: both operands (const inputs) in read-only memory
+            std::unique_ptr<RoBlock> rox, roy;
+            if (!arena && xp == X.p && yp == Y.p && place % 4 == 1)
+            {
+                rox.reset(new RoBlock(X.p, sizeof(R) * nx, sizeof(R)));
+                roy.reset(new RoBlock(Y.p, sizeof(R) * ny, sizeof(R)));
+                if (rox->p && roy->p) { xp = (R const *)rox->p; yp = (R const *)roy->p; cx.label(L_READONLY); }
+            }
             switch (op)
             {
             case 0: a_real_mulmm(m, k, n, xp, yp, zp); break;
